@@ -35,31 +35,67 @@ theorem onRead_bt (d : Dl) (data : Bytes) : (onRead d data).bt = d.bt + data.len
 theorem onRead_filesize (d : Dl) (data : Bytes) : (onRead d data).filesize = d.filesize := by
   unfold onRead; dsimp only; split <;> rfl
 
-/-- bookkeeping invariant — holds against ANY sender -/
+theorem restore_ne_downloading (s : Saved) : s.restore ≠ .downloading := by
+  unfold Saved.restore
+  split
+  · split <;> simp
+  · rename_i h; intro h2; exact h (by simpa using h2)
+
+theorem restore_complete (s : Saved) (hr : s.st = .downloading → s.bt < s.filesize)
+    (h : s.restore = .complete) : s.st = .complete := by
+  unfold Saved.restore at h
+  split at h
+  · rename_i hs
+    have := hr hs
+    split at h
+    · omega
+    · cases h
+  · exact h
+
+theorem restore_of_complete (s : Saved) (h : s.st = .complete) : s.restore = .complete := by
+  unfold Saved.restore; rw [h]
+
+/-- bookkeeping invariant — holds against ANY sender, under any user action and any restart -/
 structure Inv (d : Dl) : Prop where
-  bt_len : d.st ≠ .queued → d.bt = d.loc.length
-  complete_size : d.st = .complete → d.filesize = d.bt
+  bt_len : d.st = .downloading → d.bt = d.loc.length
+  size_ann : d.st = .downloading → d.filesize = d.ann
+  complete_size : d.st = .complete → d.loc.length = d.ann
   running : d.st = .downloading → 0 < d.chunk ∧ (d.received : Int) < d.remaining ∧
     d.remaining - (d.received : Int) = (d.filesize : Int) - (d.loc.length : Int)
+  path : d.st = .downloading ∨ d.st = .complete → d.hasPath = true
+  saved_complete : ∀ s, d.saved = some s → s.st = .complete → d.st = .complete
+  saved_running : ∀ s, d.saved = some s → s.st = .downloading → s.bt < s.filesize
+  saved_path : ∀ s, d.saved = some s → s.st = .complete → s.hasPath = true
 
-theorem inv_init (pre : Bytes) : Inv (Dl.init pre) :=
-  ⟨fun h => absurd rfl h, (fun h => by simp [Dl.init] at h), (fun h => by simp [Dl.init] at h)⟩
+theorem inv_init (pre : Bytes) (hp : Bool) : Inv (Dl.init pre hp) := by
+  refine ⟨?_, ?_, ?_, ?_, ?_, ?_, ?_, ?_⟩ <;> simp [Dl.init]
 
-theorem inv_finish (d : Dl) (h : d.bt = d.loc.length) : Inv (finish d) := by
-  refine ⟨fun _ => by simpa using h, fun hc => ?_, fun hc => absurd hc (finish_st_ne_downloading d)⟩
-  rcases finish_st d with h1 | h1
-  · simpa using h1.2
-  · rw [h1.1] at hc; cases hc
+/-- `finish` from a running download whose counter equals the file size and whose size is the announced one -/
+theorem inv_finish (d : Dl) (hs : d.st = .downloading) (hb : d.bt = d.loc.length) (ha : d.filesize = d.ann)
+    (hp : d.hasPath = true)
+    (h6 : ∀ s, d.saved = some s → s.st = .complete → d.st = .complete)
+    (h7 : ∀ s, d.saved = some s → s.st = .downloading → s.bt < s.filesize)
+    (h8 : ∀ s, d.saved = some s → s.st = .complete → s.hasPath = true) : Inv (finish d) := by
+  have hnd := finish_st_ne_downloading d
+  refine ⟨fun h => absurd h hnd, fun h => absurd h hnd, fun hc => ?_, fun h => absurd h hnd, fun _ => hp,
+          fun s hs1 hs2 => ?_, h7, h8⟩
+  · rcases finish_st d with h1 | h1
+    · have := h1.2; simp only [finish_loc]; show d.loc.length = d.ann; omega
+    · rw [h1.1] at hc; cases hc
+  · have := h6 s hs1 hs2; rw [hs] at this; cases this
 
 theorem inv_onRead (d : Dl) (data : Bytes) (hst : d.st = .downloading) (hi : Inv d) :
     Inv (onRead d data) := by
-  have hb := hi.bt_len (by simp [hst])
+  have hb := hi.bt_len hst
+  have ha := hi.size_ann hst
   obtain ⟨hc, _, hr⟩ := hi.running hst
   unfold onRead; dsimp only
   split
-  · apply inv_finish; simp [hb]
+  · exact inv_finish _ hst (by simp [hb]) ha (hi.path (Or.inl hst)) hi.saved_complete hi.saved_running
+      hi.saved_path
   · rename_i hlt
-    refine ⟨fun _ => by simp [hb], (fun hc => by simp [hst] at hc), fun _ => ⟨hc, ?_, ?_⟩⟩
+    refine ⟨fun _ => by simp [hb], fun _ => ha, (fun hc => by simp [hst] at hc), fun _ => ⟨hc, ?_, ?_⟩,
+            fun _ => hi.path (Or.inl hst), hi.saved_complete, hi.saved_running, hi.saved_path⟩
     · dsimp only; omega
     · dsimp only; simp only [List.length_append]; omega
 
@@ -78,32 +114,120 @@ theorem inv_drain (fuel : Nat) : ∀ (d : Dl) (buf : Bytes), Inv d → Inv (drai
         · exact absurd (Or.inl hs) hc
       exact ih _ _ (inv_onRead d _ hst h)
 
-theorem inv_begin (d : Dl) (a : Nat) (lim : Bool) : Inv (begin d a lim) := by
+theorem canBegin_not_complete {d : Dl} (h : canBegin d = true) : d.st ≠ .complete := by
+  intro hc; simp [canBegin, hc] at h
+
+theorem canBegin_not_downloading {d : Dl} (h : canBegin d = true) : d.st ≠ .downloading := by
+  intro hc; simp [canBegin, hc] at h
+
+theorem inv_begin (d : Dl) (a : Nat) (lim : Bool) (hb : canBegin d = true) (hi : Inv d) :
+    Inv (begin d a lim) := by
+  have hnc := canBegin_not_complete hb
+  have h6 : ∀ s, d.saved = some s → s.st = .complete → DState.downloading = .complete :=
+    fun s h1 h2 => absurd (hi.saved_complete s h1 h2) hnc
   unfold begin; dsimp only
   split
-  · apply inv_finish; rfl
+  · exact inv_finish _ rfl rfl rfl rfl h6 hi.saved_running hi.saved_path
   · rename_i hlt
-    refine ⟨fun _ => rfl, (fun hc => by cases hc), fun _ => ⟨chunkOf_pos lim, ?_, ?_⟩⟩
+    refine ⟨fun _ => rfl, fun _ => rfl, (fun hc => by cases hc), fun _ => ⟨chunkOf_pos lim, ?_, ?_⟩,
+            fun _ => rfl, h6, hi.saved_running, hi.saved_path⟩
     · dsimp only; omega
     · dsimp only; omega
 
+/-- ops that leave a state which is neither DOWNLOADING nor COMPLETE and keep the cache -/
+theorem inv_idle (d d' : Dl) (hi : Inv d) (h1 : d'.st ≠ .downloading) (h2 : d'.st ≠ .complete)
+    (hsv : d'.saved = d.saved) (hnc : d.st ≠ .complete) : Inv d' := by
+  refine ⟨fun h => absurd h h1, fun h => absurd h h1, fun h => absurd h h2, fun h => absurd h h1,
+          fun h => h.elim (fun h => absurd h h1) (fun h => absurd h h2), fun s hs1 hs2 => ?_, ?_, ?_⟩
+  · rw [hsv] at hs1; exact absurd (hi.saved_complete s hs1 hs2) hnc
+  · rw [hsv]; exact hi.saved_running
+  · rw [hsv]; exact hi.saved_path
+
 theorem inv_step (d : Dl) (op : Op) (h : Inv d) : Inv (step d op) := by
   cases op with
-  | begin a lim => simp only [step]; split; exact inv_begin d a lim; exact h
+  | begin a lim => simp only [step]; split; exact inv_begin d a lim ‹_› h; exact h
   | beginCut a =>
     simp only [step]; split
-    · exact ⟨fun hq => absurd rfl hq, (fun hc => by cases hc), (fun hc => by cases hc)⟩
+    · rename_i hb
+      exact inv_idle d _ h (by simp [beginCut]) (by simp [beginCut]) rfl (canBegin_not_complete hb)
     · exact h
   | seg bs => simp only [step]; split; exact inv_drain _ _ _ h; exact h
   | eof =>
     simp only [step]; split
-    · rename_i hs; exact inv_finish d (h.bt_len (by simp [hs]))
+    · rename_i hs
+      exact inv_finish d hs (h.bt_len hs) (h.size_ann hs) (h.path (Or.inl hs)) h.saved_complete h.saved_running
+        h.saved_path
     · exact h
   | err =>
     simp only [step]; split
     · rename_i hs
-      exact ⟨fun _ => h.bt_len (by simp [hs]), (fun hc => by cases hc), (fun hc => by cases hc)⟩
+      exact inv_idle d _ h (by simp) (by simp) rfl (by simp [hs])
     · exact h
+  | remote F =>
+    simp only [step]; split
+    · exact h
+    · exact ⟨h.bt_len, h.size_ann, h.complete_size, h.running, h.path, h.saved_complete, h.saved_running,
+             h.saved_path⟩
+  | pause =>
+    simp only [step]; split
+    · rename_i hs
+      exact inv_idle d _ h (by simp) (by simp) rfl (by simp [hs])
+    · split
+      · rename_i hs
+        exact inv_idle d _ h (by simp) (by simp) rfl (by rcases hs with hs | hs <;> simp [hs])
+      · exact h
+  | pauseWrite bs =>
+    simp only [step]; split
+    · rename_i hs
+      exact inv_idle d _ h (by simp) (by simp) rfl (by simp [hs])
+    · exact h
+  | queue =>
+    simp only [step]; split
+    · rename_i hs
+      exact inv_idle d _ h (by simp) (by simp) rfl (by rcases hs with hs | hs | hs <;> simp [hs])
+    · exact h
+  | save =>
+    simp only [step]
+    refine ⟨h.bt_len, h.size_ann, h.complete_size, h.running, h.path, ?_, ?_, ?_⟩
+    · intro s hs1 hs2
+      simp only [Option.some.injEq] at hs1
+      subst hs1; exact hs2
+    · intro s hs1 hs2
+      simp only [Option.some.injEq] at hs1
+      subst hs1
+      have hs2 : d.st = .downloading := hs2
+      obtain ⟨_, h2, h3⟩ := h.running hs2
+      have := h.bt_len hs2
+      show d.bt < d.filesize
+      omega
+    · intro s hs1 hs2
+      simp only [Option.some.injEq] at hs1
+      subst hs1
+      exact h.path (Or.inr hs2)
+  | crash keep =>
+    simp only [step]
+    split
+    · exact h
+    · rename_i s hsv
+      have hnd := restore_ne_downloading s
+      refine ⟨fun hc => absurd hc hnd, fun hc => absurd hc hnd, fun hc => ?_, fun hc => absurd hc hnd,
+              fun hc => ?_, fun s' hs1 hs2 => ?_, ?_, ?_⟩
+      · have hsc := restore_complete s (h.saved_running s hsv) hc
+        have hdc := h.saved_complete s hsv hsc
+        have hp := h.saved_path s hsv hsc
+        have := h.complete_size hdc
+        simp only [hp, if_true, hdc]
+        simpa using this
+      · rcases hc with hc | hc
+        · exact absurd hc hnd
+        · exact h.saved_path s hsv (restore_complete s (h.saved_running s hsv) hc)
+      · have : s' = s := by
+          have : some s' = some s := hs1.symm.trans hsv
+          exact Option.some.inj this
+        subst this
+        exact restore_of_complete s' hs2
+      · exact fun s' hs1 => h.saved_running s' (hs1.trans rfl)
+      · exact fun s' hs1 => h.saved_path s' (hs1.trans rfl)
 
 theorem inv_run (ops : List Op) : ∀ d, Inv d → Inv (run d ops) := by
   induction ops with
@@ -136,6 +260,33 @@ theorem drain_filesize (fuel : Nat) : ∀ (d : Dl) (buf : Bytes),
     · rfl
     · rw [ih, onRead_filesize]
 
+theorem onRead_ghost (d : Dl) (data : Bytes) :
+    (onRead d data).ann = d.ann ∧ (onRead d data).served = d.served ∧ (onRead d data).remote = d.remote ∧
+    (onRead d data).offset = d.offset := by
+  unfold onRead; dsimp only; split <;> exact ⟨rfl, rfl, rfl, rfl⟩
+
+theorem drain_ghost (fuel : Nat) : ∀ (d : Dl) (buf : Bytes),
+    (drain fuel d buf).ann = d.ann ∧ (drain fuel d buf).served = d.served ∧
+    (drain fuel d buf).remote = d.remote ∧ (drain fuel d buf).offset = d.offset := by
+  induction fuel with
+  | zero => intro d buf; exact ⟨rfl, rfl, rfl, rfl⟩
+  | succ n ih =>
+    intro d buf
+    unfold drain
+    split
+    · exact ⟨rfl, rfl, rfl, rfl⟩
+    · obtain ⟨h1, h2, h3, h4⟩ := ih (onRead d (buf.take d.chunk)) (buf.drop d.chunk)
+      obtain ⟨g1, g2, g3, g4⟩ := onRead_ghost d (buf.take d.chunk)
+      exact ⟨h1.trans g1, h2.trans g2, h3.trans g3, h4.trans g4⟩
+
+theorem drain_ann (fuel : Nat) (d : Dl) (buf : Bytes) : (drain fuel d buf).ann = d.ann := (drain_ghost fuel d buf).1
+theorem drain_served (fuel : Nat) (d : Dl) (buf : Bytes) : (drain fuel d buf).served = d.served :=
+  (drain_ghost fuel d buf).2.1
+theorem drain_remote (fuel : Nat) (d : Dl) (buf : Bytes) : (drain fuel d buf).remote = d.remote :=
+  (drain_ghost fuel d buf).2.2.1
+theorem drain_offset (fuel : Nat) (d : Dl) (buf : Bytes) : (drain fuel d buf).offset = d.offset :=
+  (drain_ghost fuel d buf).2.2.2
+
 theorem drain_not_downloading (fuel : Nat) (d : Dl) (buf : Bytes) (h : d.st ≠ .downloading) :
     drain fuel d buf = d := by
   cases fuel with
@@ -149,20 +300,38 @@ theorem drain_nil (fuel : Nat) (d : Dl) : drain fuel d [] = d := by
 
 /-! ### honest sender -/
 
-/-- invariant of runs against an honest uploader of `F` -/
+/-- invariant of runs against an honest uploader of a file `F` that does not change -/
 structure HInv (F : Bytes) (d : Dl) : Prop where
   pre : d.loc <+: F
-  size : d.st ≠ .queued → d.filesize = F.length
+  size : d.st = .downloading ∨ d.st = .complete → d.ann = F.length
 
 theorem prefix_drop {F loc : Bytes} (h : loc <+: F) : loc ++ F.drop loc.length = F := by
   obtain ⟨t, rfl⟩ := h
   simp
 
-theorem hinv_step (F : Bytes) (d : Dl) (op : Op) (h : HInv F d)
+theorem append_take_prefix {F loc bs : Bytes} (k : Nat) (h : loc <+: F) (hb : bs <+: F.drop loc.length) :
+    loc ++ bs.take k <+: F := by
+  have h1 : bs.take k <+: F.drop loc.length := (List.take_prefix k bs).trans hb
+  have h2 := prefix_drop h
+  rw [← h2]
+  exact (List.prefix_append_right_inj loc).mpr h1
+
+/-- what a crash leaves of the local file is a prefix of what it held -/
+theorem crash_loc_prefix (d : Dl) (s : Saved) (keep : Nat) :
+    (if s.hasPath then (if d.st = .downloading then d.loc.take (max keep d.offset) else d.loc) else [])
+      <+: d.loc := by
+  split
+  · split
+    · exact List.take_prefix _ _
+    · exact List.prefix_refl _
+  · exact List.nil_prefix
+
+theorem hinv_step (F : Bytes) (d : Dl) (op : Op) (hi : Inv d) (h : HInv F d)
     (hop : match op with
       | .begin a _ => a = F.length
       | .beginCut a => a = F.length
       | .seg bs => d.st = .downloading → bs <+: F.drop d.loc.length
+      | .pauseWrite bs => d.st = .downloading → bs <+: F.drop d.loc.length
       | _ => True) : HInv F (step d op) := by
   cases op with
   | begin a lim =>
@@ -175,7 +344,7 @@ theorem hinv_step (F : Bytes) (d : Dl) (op : Op) (h : HInv F d)
     · exact h
   | beginCut a =>
     simp only [step]; split
-    · exact ⟨h.pre, fun hq => absurd rfl hq⟩
+    · exact ⟨h.pre, fun hq => by simp [beginCut] at hq⟩
     · exact h
   | seg bs =>
     simp only at hop
@@ -183,34 +352,279 @@ theorem hinv_step (F : Bytes) (d : Dl) (op : Op) (h : HInv F d)
     · rename_i hs
       obtain ⟨k, hk⟩ := drain_loc bs.length d bs
       refine ⟨?_, fun _ => ?_⟩
-      · rw [hk]
-        have h1 : bs.take k <+: F.drop d.loc.length := (List.take_prefix k bs).trans (hop hs)
-        have h2 := prefix_drop h.pre
-        rw [← h2]
-        exact (List.prefix_append_right_inj d.loc).mpr h1
-      · rw [drain_filesize]; exact h.size (by simp [hs])
+      · rw [hk]; exact append_take_prefix k h.pre (hop hs)
+      · rw [drain_ann]; exact h.size (Or.inl hs)
     · exact h
   | eof =>
     simp only [step]; split
     · rename_i hs
-      refine ⟨h.pre, fun _ => ?_⟩
-      simpa using h.size (by simp [hs])
+      exact ⟨h.pre, fun _ => h.size (Or.inl hs)⟩
     · exact h
   | err =>
     simp only [step]; split
     · rename_i hs
-      exact ⟨h.pre, fun _ => h.size (by simp [hs])⟩
+      exact ⟨h.pre, fun hq => by simp at hq⟩
     · exact h
+  | remote G =>
+    simp only [step]; split
+    · exact h
+    · exact ⟨h.pre, h.size⟩
+  | pause =>
+    simp only [step]; split
+    · exact ⟨h.pre, fun hq => by simp at hq⟩
+    · split
+      · exact ⟨h.pre, fun hq => by simp at hq⟩
+      · exact h
+  | pauseWrite bs =>
+    simp only at hop
+    simp only [step]; split
+    · rename_i hs
+      exact ⟨append_take_prefix _ h.pre (hop hs), fun hq => by simp at hq⟩
+    · exact h
+  | queue =>
+    simp only [step]; split
+    · exact ⟨h.pre, fun hq => by simp at hq⟩
+    · exact h
+  | save => exact ⟨h.pre, h.size⟩
+  | crash keep =>
+    simp only [step]
+    split
+    · exact h
+    · rename_i s hsv
+      refine ⟨(crash_loc_prefix d s keep).trans h.pre, fun hq => ?_⟩
+      rcases hq with hq | hq
+      · exact absurd hq (restore_ne_downloading s)
+      · have hsc := restore_complete s (hi.saved_running s hsv) hq
+        exact h.size (Or.inr (hi.saved_complete s hsv hsc))
 
-theorem hinv_run (F : Bytes) (ops : List Op) : ∀ d, HInv F d → Honest F d ops → HInv F (run d ops) := by
+theorem hinv_run (F : Bytes) (ops : List Op) :
+    ∀ d, Inv d → HInv F d → Honest F d ops → HInv F (run d ops) := by
   induction ops with
-  | nil => intro d h _; exact h
+  | nil => intro d _ h _; exact h
   | cons op ops ih =>
-    intro d h hon
-    exact ih _ (hinv_step F d op h hon.1) hon.2
+    intro d hi h hon
+    exact ih _ (inv_step d op hi) (hinv_step F d op hi h hon.1) hon.2
 
-theorem hinv_init (F pre : Bytes) (h : pre <+: F) : HInv F (Dl.init pre) :=
-  ⟨h, fun hq => absurd rfl hq⟩
+theorem hinv_init (F pre : Bytes) (hp : Bool) (h : pre <+: F) : HInv F (Dl.init pre hp) := by
+  refine ⟨?_, fun hq => by simp [Dl.init] at hq⟩
+  simp only [Dl.init]
+  split
+  · exact h
+  · exact List.nil_prefix
+
+/-! ### honest sender whose file changes between the attempts -/
+
+/-- the attempt that began last: what it appended continues the file it was served from -/
+structure AInv (d : Dl) : Prop where
+  att : d.st = .downloading ∨ d.st = .complete →
+    d.offset ≤ d.loc.length ∧ d.loc.drop d.offset <+: d.served.drop d.offset ∧ d.ann = d.served.length
+
+theorem drop_append_prefix {loc served x : Bytes} {off : Nat} (ho : off ≤ loc.length)
+    (h : loc.drop off <+: served.drop off) (hx : x <+: served.drop loc.length) :
+    (loc ++ x).drop off <+: served.drop off := by
+  rw [List.drop_append_of_le_length ho]
+  obtain ⟨t, ht⟩ := h
+  have hd : served.drop loc.length = t := by
+    have h1 : (served.drop off).drop (loc.drop off).length = t := by rw [← ht]; simp
+    rw [List.drop_drop, List.length_drop] at h1
+    have : off + (loc.length - off) = loc.length := by omega
+    rw [this] at h1; exact h1
+  rw [hd] at hx
+  rw [← ht]
+  exact (List.prefix_append_right_inj _).mpr hx
+
+theorem ainv_step (d : Dl) (op : Op) (hi : Inv d) (h : AInv d)
+    (hop : match op with
+      | .begin a _ => a = d.remote.length
+      | .beginCut a => a = d.remote.length
+      | .seg bs => d.st = .downloading → bs <+: d.served.drop d.loc.length
+      | .pauseWrite bs => d.st = .downloading → bs <+: d.served.drop d.loc.length
+      | _ => True) : AInv (step d op) := by
+  cases op with
+  | begin a lim =>
+    simp only at hop
+    simp only [step]; split
+    · unfold begin; dsimp only
+      split
+      · exact ⟨fun _ => ⟨Nat.le_refl _, by simp [finish], hop⟩⟩
+      · exact ⟨fun _ => ⟨Nat.le_refl _, by simp, hop⟩⟩
+    · exact h
+  | beginCut a =>
+    simp only [step]; split
+    · exact ⟨fun hq => by simp [beginCut] at hq⟩
+    · exact h
+  | seg bs =>
+    simp only at hop
+    simp only [step]; split
+    · rename_i hs
+      obtain ⟨h1, h2, h3⟩ := h.att (Or.inl hs)
+      obtain ⟨k, hk⟩ := drain_loc bs.length d bs
+      refine ⟨fun _ => ?_⟩
+      rw [drain_offset, drain_served, drain_ann, hk]
+      refine ⟨by simp only [List.length_append]; omega, ?_, h3⟩
+      exact drop_append_prefix h1 h2 ((List.take_prefix k bs).trans (hop hs))
+    · exact h
+  | eof =>
+    simp only [step]; split
+    · rename_i hs
+      exact ⟨fun _ => h.att (Or.inl hs)⟩
+    · exact h
+  | err =>
+    simp only [step]; split
+    · exact ⟨fun hq => by simp at hq⟩
+    · exact h
+  | remote G =>
+    simp only [step]; split
+    · exact h
+    · exact ⟨h.att⟩
+  | pause =>
+    simp only [step]; split
+    · exact ⟨fun hq => by simp at hq⟩
+    · split
+      · exact ⟨fun hq => by simp at hq⟩
+      · exact h
+  | pauseWrite bs =>
+    simp only [step]; split
+    · exact ⟨fun hq => by simp at hq⟩
+    · exact h
+  | queue =>
+    simp only [step]; split
+    · exact ⟨fun hq => by simp at hq⟩
+    · exact h
+  | save => exact ⟨h.att⟩
+  | crash keep =>
+    simp only [step]
+    split
+    · exact h
+    · rename_i s hsv
+      refine ⟨fun hq => ?_⟩
+      rcases hq with hq | hq
+      · exact absurd hq (restore_ne_downloading s)
+      · have hsc := restore_complete s (hi.saved_running s hsv) hq
+        have hdc := hi.saved_complete s hsv hsc
+        have hp := hi.saved_path s hsv hsc
+        have := h.att (Or.inr hdc)
+        simp only [hp, if_true, hdc]
+        simpa using this
+
+theorem ainv_run (ops : List Op) : ∀ d, Inv d → AInv d → HonestV d ops → AInv (run d ops) := by
+  induction ops with
+  | nil => intro d _ h _; exact h
+  | cons op ops ih =>
+    intro d hi h hon
+    exact ih _ (inv_step d op hi) (ainv_step d op hi h hon.1) hon.2
+
+theorem ainv_init (pre : Bytes) (hp : Bool) (F : Bytes) : AInv { Dl.init pre hp with remote := F } :=
+  ⟨fun hq => by simp [Dl.init] at hq⟩
+
+/-- … and the shared file only grows at its end: the local file and the file of the last attempt are both
+prefixes of the shared file as it is now -/
+structure GInv (d : Dl) : Prop where
+  pre : d.loc <+: d.remote
+  srv : d.st = .downloading ∨ d.st = .complete → d.served <+: d.remote
+
+theorem append_prefix_of_prefixes {loc served R x : Bytes} (h1 : loc <+: R) (h2 : served <+: R)
+    (hx : x <+: served.drop loc.length) : loc ++ x <+: R := by
+  by_cases hl : loc.length ≤ served.length
+  · have hp : loc <+: served := List.prefix_of_prefix_length_le h1 h2 hl
+    have : loc ++ x <+: served := by
+      have := prefix_drop hp
+      rw [← this]
+      exact (List.prefix_append_right_inj loc).mpr hx
+    exact this.trans h2
+  · have : served.drop loc.length = [] := List.drop_of_length_le (by omega)
+    rw [this] at hx
+    have : x = [] := List.prefix_nil.mp hx
+    subst this
+    simpa using h1
+
+theorem ginv_step (d : Dl) (op : Op) (hi : Inv d) (h : GInv d)
+    (hop : match op with
+      | .seg bs => d.st = .downloading → bs <+: d.served.drop d.loc.length
+      | .pauseWrite bs => d.st = .downloading → bs <+: d.served.drop d.loc.length
+      | .remote F => d.remote <+: F
+      | _ => True) : GInv (step d op) := by
+  cases op with
+  | begin a lim =>
+    simp only [step]; split
+    · unfold begin; dsimp only
+      split <;> exact ⟨h.pre, fun _ => List.prefix_refl _⟩
+    · exact h
+  | beginCut a =>
+    simp only [step]; split
+    · exact ⟨h.pre, fun hq => by simp [beginCut] at hq⟩
+    · exact h
+  | seg bs =>
+    simp only at hop
+    simp only [step]; split
+    · rename_i hs
+      obtain ⟨k, hk⟩ := drain_loc bs.length d bs
+      refine ⟨?_, fun _ => ?_⟩
+      · rw [hk, drain_remote]
+        exact append_prefix_of_prefixes h.pre (h.srv (Or.inl hs)) ((List.take_prefix k bs).trans (hop hs))
+      · rw [drain_served, drain_remote]; exact h.srv (Or.inl hs)
+    · exact h
+  | eof =>
+    simp only [step]; split
+    · rename_i hs
+      exact ⟨h.pre, fun _ => h.srv (Or.inl hs)⟩
+    · exact h
+  | err =>
+    simp only [step]; split
+    · exact ⟨h.pre, fun hq => by simp at hq⟩
+    · exact h
+  | remote G =>
+    simp only at hop
+    simp only [step]; split
+    · exact h
+    · exact ⟨h.pre.trans hop, fun hq => (h.srv hq).trans hop⟩
+  | pause =>
+    simp only [step]; split
+    · exact ⟨h.pre, fun hq => by simp at hq⟩
+    · split
+      · exact ⟨h.pre, fun hq => by simp at hq⟩
+      · exact h
+  | pauseWrite bs =>
+    simp only at hop
+    simp only [step]; split
+    · rename_i hs
+      exact ⟨append_prefix_of_prefixes h.pre (h.srv (Or.inl hs)) ((List.take_prefix _ bs).trans (hop hs)),
+             fun hq => by simp at hq⟩
+    · exact h
+  | queue =>
+    simp only [step]; split
+    · exact ⟨h.pre, fun hq => by simp at hq⟩
+    · exact h
+  | save => exact ⟨h.pre, h.srv⟩
+  | crash keep =>
+    simp only [step]
+    split
+    · exact h
+    · rename_i s hsv
+      refine ⟨(crash_loc_prefix d s keep).trans h.pre, fun hq => ?_⟩
+      rcases hq with hq | hq
+      · exact absurd hq (restore_ne_downloading s)
+      · have hsc := restore_complete s (hi.saved_running s hsv) hq
+        exact h.srv (Or.inr (hi.saved_complete s hsv hsc))
+
+/-- both restrictions of an honest uploader of a growing file, for one op -/
+def GrowStep (d : Dl) (op : Op) : Prop :=
+  match op with
+  | .seg bs => d.st = .downloading → bs <+: d.served.drop d.loc.length
+  | .pauseWrite bs => d.st = .downloading → bs <+: d.served.drop d.loc.length
+  | .remote F => d.remote <+: F
+  | _ => True
+
+theorem growStep_of (d : Dl) (op : Op) (ops : List Op) (h1 : HonestV d (op :: ops)) (h2 : Grows d (op :: ops)) :
+    GrowStep d op := by
+  cases op <;> simp only [GrowStep] <;> first | exact h1.1 | exact h2.1 | trivial
+
+theorem ginv_run (ops : List Op) : ∀ d, Inv d → GInv d → HonestV d ops → Grows d ops → GInv (run d ops) := by
+  induction ops with
+  | nil => intro d _ h _ _; exact h
+  | cons op ops ih =>
+    intro d hi h hon hg
+    exact ih _ (inv_step d op hi) (ginv_step d op hi h (growStep_of d op ops hon hg)) hon.2 hg.2
 
 /-! ### progress of a fault-free attempt (download side) -/
 
